@@ -41,9 +41,23 @@ func (v *VerifHandle) Lookup(name string) (*vatomic.Uint64, bool) {
 	return c, ok
 }
 
-func (v *VerifHandle) Len() int       { return len(v.m.mapping.Data) }
+// a closed / absent mapping is an observation (length 0, base 0), not a panic
+func (v *VerifHandle) Len() int {
+	if v == nil || v.m == nil || v.m.mapping == nil {
+		return 0
+	}
+	return len(v.m.mapping.Data)
+}
 func (v *VerifHandle) HdrLen() uint32 { return v.m.hdrLen }
-func (v *VerifHandle) Base() uintptr  { return uintptr(unsafe.Pointer(&v.m.mapping.Data[0])) }
+func (v *VerifHandle) Base() uintptr {
+	if v == nil || v.m == nil || v.m.mapping == nil || len(v.m.mapping.Data) == 0 {
+		return 0
+	}
+	return uintptr(unsafe.Pointer(&v.m.mapping.Data[0]))
+}
+
+// Closed reports whether the handle's mapping has been closed (by anybody).
+func (v *VerifHandle) Closed() bool { return v == nil || v.m == nil || v.m.mapping == nil }
 func (v *VerifHandle) Close()         { v.m.close() }
 
 // VerifCellAdd is Counter.add on a cell of the mapping.
